@@ -10,6 +10,7 @@ import (
 	"os"
 	"runtime/debug"
 	"strings"
+	"sync"
 	"testing"
 
 	"github.com/dgraph-io/badger/v4"
@@ -183,7 +184,7 @@ func RunReplay(t *testing.T, entries map[string]func()) {
 	for _, v := range c.Values {
 		if v.Kind == "uf" {
 			ufs[v.Label+":"+v.Args] = v.Hex
-		} else if v.Kind == "clock" {
+		} else if v.Kind == "clock" || v.Kind == "sched" {
 			// the engine's model of time.Now(): the native run reads the real clock
 		} else {
 			vals = append(vals, v)
@@ -228,3 +229,19 @@ func NewKV() *badger.DB {
 }
 
 func KVConflicts() {}
+
+// SizedBlob: a byte string of which only the length matters.
+func SizedBlob(n int) []byte { return make([]byte, n) }
+
+var zzWG sync.WaitGroup
+
+// Go / Wait: real goroutines in replay (the schedule is the Go runtime's).
+func Go(f func()) {
+	zzWG.Add(1)
+	go func() {
+		defer zzWG.Done()
+		f()
+	}()
+}
+
+func Wait() { zzWG.Wait() }
